@@ -7,6 +7,7 @@ import (
 	"bufio"
 	"fmt"
 	"io"
+	"os"
 	"os/exec"
 	"strconv"
 	"strings"
@@ -449,5 +450,13 @@ func (e *Engine) infeasible(st *State, cond *Term) bool {
 		e.feas = s
 	}
 	e.nfeas++
-	return e.feas.Check(q.Script, 2000) == "unsat"
+	if d := os.Getenv("GOSYM_DUMPFEAS"); d != "" {
+		os.WriteFile(fmt.Sprintf("%s/feas%04d.smt2", d, e.nfeas), []byte(q.Script+"(check-sat)\n"), 0644)
+	}
+	t0 := time.Now()
+	v := e.feas.Check(q.Script, 2000)
+	if os.Getenv("GOSYM_TRACE") != "" {
+		fmt.Fprintf(os.Stderr, "feas #%d %s %dms script=%dB\n", e.nfeas, v, time.Since(t0).Milliseconds(), len(q.Script))
+	}
+	return v == "unsat"
 }
